@@ -66,11 +66,29 @@ theorem slotsOf_ne_nil {tab : List (List Char × Nat × Nat)} {l : Nat} :
       · simp at h
       · simp at h; subst h; simp
 
+/-- the swizzle loop pushes one slot per character -/
+theorem slotsOf_length {tab : List (List Char × Nat × Nat)} {l : Nat} :
+    ∀ (cs : List Char) (ks : List Nat), slotsOf tab l cs = some ks → ks.length = cs.length
+  | [], ks, h => by simp [slotsOf] at h; subst h; rfl
+  | c :: r, ks, h => by
+    simp only [slotsOf] at h
+    split at h
+    · simp at h
+    · split at h
+      · simp at h
+      · rename_i ks0 hks0
+        simp at h; subst h
+        simp [slotsOf_length r ks0 hks0]
+
 /-- table fact (re-checked against the regenerated `Gen.ElabTables`): a scalar only has slot `X` -/
 theorem scalarSwizzle_rows : ∀ row ∈ scalarSwizzle, row.2.2 < 1 := by decide
 
 /-- table facts: every arm of the vector / matrix readers selects a component below the width its guard demands -/
 theorem vectorSwizzle_rows : ∀ row ∈ vectorSwizzle, row.2.2 < row.2.1 := by decide
+
+/-- re-decided against the regenerated tables: the three slot-count limits of the `Member` arm (scalar and vector arms since
+    fix c805c03, `read_matrix_subscript`) are the number of components the largest vector type has -/
+theorem maxSlots_rows : scalarMaxSlots ≤ 4 ∧ vectorMaxSlots ≤ 4 ∧ matrixMaxSlots ≤ 4 := by decide
 theorem matrixDigitsM_rows : ∀ row ∈ matrixDigitsM, row.2.2 < row.2.1 := by decide
 theorem matrixDigits_rows : ∀ row ∈ matrixDigits, row.2.2 < row.2.1 := by decide
 
@@ -212,16 +230,24 @@ theorem elabMember_sound {name : String} {e n : IExpr} {τ τ' : ETy} (he : HasT
     · rename_i s hl
       split at h
       · rename_i slots hs
-        simp at h; obtain ⟨rfl, rfl⟩ := h
-        exact .swizzleS he hl (slotsOf_ne_nil _ _ hname hs)
-          (slotsOf_all (fun c k hk => lookupSlot_prop (P := fun k => k < 1) _ _ _ _ scalarSwizzle_rows hk) _ _ hs)
+        split at h
+        · simp at h
+        · rename_i hlen
+          simp at h; obtain ⟨rfl, rfl⟩ := h
+          exact .swizzleS he hl (slotsOf_ne_nil _ _ hname hs)
+            (Nat.le_trans (Nat.le_of_not_lt hlen) maxSlots_rows.1)
+            (slotsOf_all (fun c k hk => lookupSlot_prop (P := fun k => k < 1) _ _ _ _ scalarSwizzle_rows hk) _ _ hs)
       · simp at h
     · rename_i s x hl
       split at h
       · rename_i slots hs
-        simp at h; obtain ⟨rfl, rfl⟩ := h
-        exact .swizzleV he hl (slotsOf_ne_nil _ _ hname hs)
-          (slotsOf_all (fun c k hk => lookupSlot_lt _ _ _ _ vectorSwizzle_rows hk) _ _ hs)
+        split at h
+        · simp at h
+        · rename_i hlen
+          simp at h; obtain ⟨rfl, rfl⟩ := h
+          exact .swizzleV he hl (slotsOf_ne_nil _ _ hname hs)
+            (Nat.le_trans (Nat.le_of_not_lt hlen) maxSlots_rows.2.1)
+            (slotsOf_all (fun c k hk => lookupSlot_lt _ _ _ _ vectorSwizzle_rows hk) _ _ hs)
       · simp at h
     · rename_i s x y hl
       split at h
@@ -229,7 +255,7 @@ theorem elabMember_sound {name : String} {e n : IExpr} {τ τ' : ETy} (he : HasT
         simp at h; obtain ⟨rfl, rfl⟩ := h
         obtain ⟨hne, hb⟩ := readMatrix_bounds x y _ _ _ _ _ slots
           ⟨by intro p hp; simp at hp, by intro _ _ he'; simp at he'⟩ hs
-        exact .mswizzle he hl hne hb
+        exact .mswizzle he hl hne (Nat.le_trans (readMatrix_length x y _ _ _ _ _ slots hs) maxSlots_rows.2.2) hb
       · simp at h
     · simp at h
 
